@@ -50,6 +50,10 @@ def _optimize(
     if study._thread_local.in_optimize_loop:
         raise RuntimeError("Nested invocation of `Study.optimize` method isn't allowed.")
 
+    if callbacks is not None:
+        # `callbacks` is iterated once per trial: a one-shot iterable would be exhausted by the first.
+        callbacks = list(callbacks)
+
     if show_progress_bar and n_trials is None and timeout is not None and n_jobs != 1:
         warnings.warn("The timeout-based progress bar is not supported with n_jobs != 1.")
         show_progress_bar = False
